@@ -79,3 +79,12 @@ Definition doc_table : list (otype * string * string) := [
   (TBoolean, "", "bool"); (TString, "", "string"); (TString, "byte", "[]byte");
   (TString, "date-time", "time.Time"); (TString, "date", "openapi_types.Date"); (TString, "uuid", "openapi_types.UUID");
   (TString, "email", "openapi_types.Email"); (TString, "binary", "openapi_types.File"); (TString, "json", "json.RawMessage") ].
+
+(** * How a named type is declared: alias ([type X = T]) or defined type ([type X T]).  Objects with members and enums
+      are always defined types; arrays, primitives, references and free-form objects are aliases unless the output option
+      disable-type-aliases-for-type lists the kind (only "array" is documented) or compatibility.old-aliasing is set. *)
+Inductive tkind := KArray | KPrimitive | KReference | KFreeForm | KEnum | KStruct.
+Definition via_alias (disable_array : bool) (k : tkind) : bool :=
+  match k with KStruct | KEnum => false | KArray => negb disable_array | _ => true end.
+Definition declared_as_alias (old_aliasing disable_array : bool) (k : tkind) : bool :=
+  negb old_aliasing && via_alias disable_array k.
